@@ -151,4 +151,47 @@ def header(timeout_ms):
     tag = z3.Plus(text_no_linebreak())
     variants = [("bracketed", True, [(lit("["), None), (tag, 1), (lit("]"), None)])]
     shape = concat([lit("["), z3.Plus(charset(rx.complement_ranges([(10, 10)]))), lit("]"), NL()])
-    return check_recogniser("header", pattern, variants, shape, timeout_ms, 1)
+    return check_recogniser("header", pattern, variants, shape, timeout_ms, 1) + header_ground()
+
+
+def header_ground():
+    """Closed facts about the track-header format, read from the live package: the statement's
+    '40 <Difficulty><Instrument> headers'.  (That from_file's own lookup table IS this table is a
+    proof obligation of Chart.from_file[routing]: hint current-section-pair / header-names-its-pair.)"""
+    import itertools
+    ins = live_module("chartparse.instrument")
+    C = live_module("chartparse.chart").Chart
+    obs = []
+
+    def g(name, ok, detail):
+        o = Ob("rx/header/ground/" + name, "ground")
+        o.backend = "ground"
+        o.status = "discharged" if ok else "refuted"
+        o.reason = str(detail)[:300]
+        if not ok:
+            o.model = {"detail": str(detail)[:300]}
+        obs.append(o)
+    import typing
+    I = [m for m in ins.Instrument if not isinstance(m.value, typing.TypeVar)]
+    D = [m for m in ins.Difficulty if not isinstance(m.value, typing.TypeVar)]
+    tags = [d.value + i.value for i, d in itertools.product(I, D)]
+    g("forty-track-headers", len(I) * len(D) == 40 and len(tags) == 40, f"{len(I)} instruments x {len(D)} difficulties")
+    g("headers-pairwise-distinct", len(set(tags)) == len(tags), [t for t in tags if tags.count(t) > 1][:6])
+    req = list(getattr(C, "_required_header_tags", ()))
+    g("required-sections-are-song-synctrack-events", sorted(req) == ["Events", "Song", "SyncTrack"], req)
+    g("no-track-header-is-a-required-section", not (set(tags) & set(req)), sorted(set(tags) & set(req)))
+    md, st, ge = live_module("chartparse.metadata").Metadata, live_module("chartparse.sync").SyncTrack, live_module("chartparse.globalevents").GlobalEventsTrack
+    g("section-names-of-the-three-parsers", (md.header_tag, st.header_tag, ge.header_tag) == ("Song", "SyncTrack", "Events"), (md.header_tag, st.header_tag, ge.header_tag))
+    # the label a track reports for itself is the header it is read from
+    bad = []
+    for i, d in itertools.product(I, D):
+        t = object.__new__(ins.InstrumentTrack)
+        object.__setattr__(t, "instrument", i)
+        object.__setattr__(t, "difficulty", d)
+        try:
+            if t.header_tag != d.value + i.value:
+                bad.append((i, d, t.header_tag))
+        except Exception as e:
+            bad.append((i, d, repr(e)))
+    g("track-header_tag-is-its-section-header", not bad, bad[:4])
+    return obs
